@@ -126,7 +126,7 @@ class ConveyorBelt(Edge):
 
     def is_stalled(self):
           """Check if the belt is stalled due to time constraints."""
-          if self.belt.ready_items and len(self.belt.reservations_get)==0 :
+          if self.belt.ready_items:
             return True
           else:
             return False
